@@ -9,6 +9,8 @@ def run(chk):
     chk.assume("U/C08: registered parent links are tree shaped (a child id is strictly deeper than its parent: ids encode their path)")
     chk.assume("G: the block under _parent_done_lock is one atomic action")
     state_contracts.mark_orphans(chk, "C10")
+    from . import wrapper_contracts
+    wrapper_contracts.control_signals_not_exceptions(chk, "C10")
     state_contracts.create_checkpoint(chk, "C10", want=("C10",))
     for kind in ("step", "child", "wfc"):
         ex = explore(kind)
@@ -19,6 +21,7 @@ def run(chk):
     from . import executor_contracts
     executor_contracts.on_task_complete(chk, "C10", want=("C10",))
     executor_contracts.execute_structure(chk, "C10")
+    executor_contracts.replay_items(chk, "C10")             # on replay no branch body runs (and nothing is recorded) under the completed batch unless its own record is SUCCEEDED
     for kind in ("wait", "invoke", "callback"):
         ex = explore(kind)
         handler_preamble(chk, ex, FUNCS[kind])
